@@ -2,6 +2,7 @@
 from __future__ import annotations
 
 import itertools
+import math
 from fractions import Fraction
 
 import numpy as np
@@ -174,6 +175,10 @@ def bookkeeping(r, from_masks=True):
     for m, e in r["metrics"].items():
         if len(e["all"]) != tp:
             bad.append(f"{m} list has {len(e['all'])} entries, tp={tp}")
+        if tp > 0 and e["all"] and any(x != x or x in (float("inf"), float("-inf")) for x in e["all"]):
+            # an undefined per-instance score (e.g. clDice of skeletons that miss each other) stays in the list; its aggregates are
+            # undefined as well -- only the length identity above applies
+            continue
         if tp > 0 and e["all"]:
             vals = [Fraction(x) for x in e["all"]]
             mu = sum(vals) / len(vals)
@@ -181,8 +186,10 @@ def bookkeeping(r, from_masks=True):
             if not impl.same_float(e.get("sq"), mu):
                 bad.append(f"sq[{m}]={e.get('sq')} is not the mean {float(mu)}")
             sd = e.get("std")
-            if sd is None or abs(Fraction(sd) ** 2 - var) > Fraction(1, 2 ** 28) * max(1, var):
-                bad.append(f"std[{m}]={sd} is not the population std (variance {float(var)})")
+            # population standard deviation: numpy's two-pass value is within a few ulps of the exact one (no cancellation)
+            sd_exact = math.sqrt(float(var))
+            if sd is None or sd != sd or abs(sd - sd_exact) > 1e-10 * max(1.0, abs(float(mu)), sd_exact):
+                bad.append(f"std[{m}]={sd} is not the population std {sd_exact!r} of the {len(vals)} per-instance values")
             if m in ("IOU", "DSC") and any(v < 0 or v > 1 for v in vals):
                 bad.append(f"{m} value outside [0,1]")
             if m in impl.PQ_KEY and "pq" in e and r.get("rq") is not None:
